@@ -58,11 +58,13 @@ class Recorder(ContentHandler):
 
 class SeamNativeWriter(XmlEventWriter):
     def build_handler(self):
+        _remember(self)
         return Recorder()
 
 
 class SeamLxmlWriter(LxmlEventWriter):
     def build_handler(self):
+        _remember(self)
         return Recorder()
 
     def write(self, events):
@@ -84,19 +86,33 @@ REAL_WRITERS = {"native": XmlEventWriter, "lxml": LxmlEventWriter}
 HANDLERS = {"native": XmlEventHandler, "lxml": LxmlEventHandler}
 
 
+_LAST = []
+
+
+def _remember(writer):
+    del _LAST[:]
+    _LAST.append(writer)
+
+
 def to_sax(obj, writer="native", config=None, ns_map=None, context=None):
-    """Run the real EventGenerator and the real writer's Python half; return the recorded SAX calls."""
+    """Run the REAL public entry points - XmlSerializer.write with a seam writer class, TreeSerializer.render with the seam
+    tree builder injected as `LxmlTreeBuilder` into its module - and return the recorded SAX calls."""
+    from xsdata.formats.dataclass.serializers import tree as tree_mod
+    from xsdata.formats.dataclass.serializers.tree import TreeSerializer
+    from xsdata.formats.dataclass.serializers.xml import XmlSerializer
+
     config = config or SerializerConfig()
     context = context or XmlContext()
-    gen = EventGenerator(context=context, config=config)
-    events = gen.generate(obj)
-    ns = namespaces.clean_prefixes(ns_map) if ns_map else {}
     if writer == "tree":
-        w = SeamTreeBuilder(config=config, ns_map=ns)
-    else:
-        w = WRITERS[writer](config=config, output=io.StringIO(), ns_map=ns)
-    w.write(events)
-    return w.handler.calls
+        saved = tree_mod.LxmlTreeBuilder
+        tree_mod.LxmlTreeBuilder = SeamTreeBuilder
+        try:
+            rec = TreeSerializer(config=config, context=context).render(obj, ns_map)
+        finally:
+            tree_mod.LxmlTreeBuilder = saved
+        return rec.calls
+    XmlSerializer(config=config, context=context, writer=WRITERS[writer]).write(io.StringIO(), obj, ns_map)
+    return _LAST[0].handler.calls
 
 
 class Elem:
